@@ -8,6 +8,7 @@ mod progs;
 mod c08;
 mod c09;
 mod c10;
+mod c11;
 mod c12;
 mod c13;
 mod c15;
@@ -162,6 +163,7 @@ fn real_main() {
                 "C09" => c09::generate(&mut em, seed, thorough),
                 "C10" => c10::generate_c10(&mut em, seed, thorough),
                 "C19" => c10::generate_c19(&mut em, seed, thorough),
+                "C11" => c11::generate(&mut em, seed, thorough),
                 "C12" => c12::generate(&mut em, seed, thorough),
                 "C13" => c13::generate(&mut em, seed, thorough),
                 "C15" => c15::generate(&mut em, seed, thorough),
